@@ -388,6 +388,14 @@ def main():
                 lines = outs.get(c["tag"], [])
                 native = {}
                 bad = [l for l in lines if l.startswith(("REPLAY-ASSERT-FAIL", "REPLAY-PANIC", "REPLAY-MISSING", "REPLAY-MISMATCH", "REPLAY-ABORT"))]
+                # assertions the engine was told to leave to another property are not compared
+                inc, exc = job.get("assert_include"), job.get("assert_exclude")
+                def _filtered(l):
+                    if not l.startswith("REPLAY-ASSERT-FAIL "):
+                        return False
+                    aid = l[len("REPLAY-ASSERT-FAIL "):].strip()
+                    return bool((inc and not re.search(inc, aid)) or (exc and re.search(exc, aid)))
+                bad = [l for l in bad if not _filtered(l)]
                 for l in lines:
                     if l.startswith("REPLAY-OBSERVE "):
                         k, _, val = l[len("REPLAY-OBSERVE "):].partition("=")
